@@ -35,6 +35,9 @@ type ExponentialDistribution struct {
 /* -------------------------------------------------------------------------- */
 
 func NewExponentialDistribution(lambda Scalar) (*ExponentialDistribution, error) {
+  if math.IsNaN(lambda.GetFloat64()) {
+    return nil, fmt.Errorf("invalid parameters")
+  }
   if lambda.GetFloat64() <= 0.0 {
     return nil, fmt.Errorf("invalid value for parameter lambda: %f", lambda.GetFloat64())
   }
